@@ -24,7 +24,7 @@ ASSUMPTIONS = [
 ]
 TIMEOUT = {"quick": 300, "thorough": 1500}
 REQUIRED = {"post:joint_call": 100, "stat_tests": 100, "cases:permuted_layout": 30, "cases:merged_same_type": 30,
-            "guess_selections": 10, "normalisation_integrals": 10}
+            "guess_selections": 10, "normalisation_integrals": 10, "cases:large_or_extreme": 20}
 
 ZERO = -1e99  # the library represents zero density by -1e100
 
@@ -274,6 +274,54 @@ def run_job(job, rec):
             rec.count("normalisation_integrals")
             rec.check(abs(integral - 1) <= 1e-6, "not-normalised",
                       lambda: f"{kind} prior integrates to {integral!r} over (and beyond) its support: {co.describe()}", rec.context)
+
+    # ------------------------------------------------ many variables and extreme hyper-parameter magnitudes
+    for c in range(max(2, job["n_single"] // 4)):
+        kind = str(rng.choice(["G", "E", "U"]))
+        n = int(rng.choice([60, 200, 450, 900]))
+        ex = float(rng.choice([2.0, 30.0, 120.0]))
+        coords = []
+        for _ in range(n):
+            co = Coord(rng, kind)
+            f = 10.0 ** rng.uniform(-ex, ex) if rng.random() < 0.5 else 10.0 ** (-ex if rng.random() < 0.5 else ex) * rng.uniform(0.5, 2)
+            if kind == "G":
+                co.mu, co.sigma = co.mu * f, co.sigma * f
+            elif kind == "E":
+                co.beta = co.beta * f
+            else:
+                co.lo, co.hi = co.lo * f, co.lo * f + (co.hi - co.lo) * f
+            coords.append(co)
+        idx = [int(i) for i in rng.permutation(n)]
+        lctx = {"large": kind, "n": n, "magnitude_decades": ex}
+        rec.context = lctx
+        single = rng.random() < 0.5
+        if single:
+            obj = guarded(build_component, priors, kind, coords, idx, rng)
+        else:
+            comps = [guarded(build_component, priors, kind, [co], [i], rng) for co, i in zip(coords, idx)]
+            obj = guarded(priors.JointPrior, comps, n) if not any(isinstance(v, Raised) for v in comps) else comps[0]
+        rec.count("cases:large_or_extreme")
+        rec.case(digest("large", kind, n, ex, idx[:5]), nontrivial=True)
+        if isinstance(obj, Raised):
+            rec.violation("raised", f"constructing a {kind} prior over {n} variables raised {obj!r}", lctx)
+            continue
+        layout = dict(zip(idx, coords))
+        theta = np.zeros(n)
+        for i in idx:
+            theta[i] = layout[i].inside_point(rng)
+        terms = np.array([layout[i].logpdf(theta[i]) for i in range(n)])
+        ref = float(np.sum(terms))
+        val = guarded(obj, theta)
+        tol = 64 * np.finfo(float).eps * (np.abs(terms).sum() + n)
+        rec.check((not isinstance(val, Raised)) and np.isfinite(ref) and abs(float(val) - ref) <= tol, "value",
+                  lambda: f"{kind} prior over {n} variables (hyper-parameters spanning 1e+-{ex:g}): log-density {val!r} != sum of reference log-pdfs {ref!r}", lctx)
+        g = guarded(obj.gradient, theta)
+        if single:
+            gref = np.array([layout[i].dlogpdf(theta[i]) for i in idx])
+        else:
+            gref = np.array([layout[i].dlogpdf(theta[i]) for i in range(n)])
+        rec.check((not isinstance(g, Raised)) and np.shape(g) == gref.shape and bool(np.all(np.abs(np.asarray(g) - gref) <= 1e-12 * np.abs(gref) + 1e-300)), "gradient",
+                  lambda: f"{kind} prior over {n} variables: gradient differs from the reference", lctx)
 
     # ------------------------------------------------ joint priors
     for c in range(job["n_joint"]):
